@@ -8,9 +8,9 @@
      ODef h o                  the Deferred returned by the h-th Deferred-returning makeRequest call fires with o
      t_dlog                    correlation id passed to makeRequest, per handle (dlog_is_make_log)
      CInv                      the invariant every reachable state satisfies (C06_reachable) *)
-From AV Require Import Base.Util Model.Framing Model.BrokerClient Model.BrokerClientHook
+From AV Require Import Base.Util Model.Framing Model.BrokerClient Model.BrokerClientHook Model.BrokerClientTail
   Proofs.FramingFacts Proofs.FramingExtra Proofs.FramingBootstrap Proofs.BrokerClientTbl Proofs.BrokerClientInv
-  Proofs.BrokerClientC06 Proofs.BrokerClientChunk Proofs.BrokerClientHook Proofs.BrokerClientGaps.
+  Proofs.BrokerClientC06 Proofs.BrokerClientChunk Proofs.BrokerClientHook Proofs.BrokerClientGaps Proofs.BrokerClientTail.
 
 (* ------------------------------------------------------------------ framing *)
 
@@ -274,6 +274,23 @@ Theorem C06_spec_other_ids_untouched : forall fs m x, (forall f, In f fs -> corr
 Proof. exact spec_frames_other. Qed.
 Print Assumptions C06_spec_other_ids_untouched.
 
+(* Tail-position re-entrancy, proved.  Model/BrokerClientTail.v transcribes dataReceived with user callbacks: when a
+   frame completes the Deferred of handle h, the calls [cassoc inter h] (cancel of any request / makeRequest /
+   disconnect / close, any number, any order) are made INSIDE handleResponse, inside the loop over the frames of the
+   chunk, while Twisted's buffer field still holds the whole chunk.  For a connected client with an empty receive buffer
+   and a chunk of whole frames followed by an incomplete residue, state and outputs (in order) are those of the
+   sequential history in which each frame is its own event and each call is an ordinary event right after the frame
+   that triggered it.  (The other tail positions need no theorem about afkak: Deferred.cancel() fires the errback after
+   the canceller _cancelRequest has returned, and the Deferred of makeRequest on a closed client has fired before the
+   caller can attach anything - no afkak statement follows the firing.  The two NON-tail positions are the loops of
+   Model/BrokerClientHook.v.) *)
+Theorem C06_tail_reentrancy : forall inter fs r s, s_proto s = true -> s_rxbuf s = [] ->
+  Forall (fun f => ok4 f = true /\ Z.of_nat (length f) <= MAX_LENGTH) fs ->
+  parse ok4 r = ([], RxMore r) ->
+  data_in_c inter s (concat (map encode_frame fs) ++ r) = run s (tail_events inter s fs ++ [EData r]).
+Proof. exact tail_reentrancy. Qed.
+Print Assumptions C06_tail_reentrancy.
+
 (* ------------------------------------------------------------------ the bootstrap protocol, as observed *)
 
 (* For every event list (requests, data in any chunking, connection loss): no request Deferred fires twice; a success
@@ -363,6 +380,16 @@ Example bootstrap_cancel_nonvacuous :
                     BData [0;0;0;5;0;0;0;2;66]; BData [0;0;0;4;0;0;0;1]])
   = [BWrite 0 [0;3;0;0;0;0;0;1]; BWrite 1 [0;3;0;0;0;0;0;2]; BDef 0 BFailCancelled; BDef 1 (BSucc [0;0;0;2;66]); BLose].
 Proof. vm_compute. reflexivity. Qed.
+
+(* two frames in one chunk; the callback of request 1 (handle 0) cancels request 2 and closes the client: the second
+   frame, handled afterwards in the same dataReceived call, is a late reply to a cancelled request *)
+Example tail_reentrancy_nonvacuous :
+  let s := fst (run init [EMake 1 true; EMake 2 true; EConnOk]) in
+  let inter := [(0%nat, [KCancel 1; KClose])] in
+  snd (data_in_c inter s (encode_frame [0;0;0;1] ++ encode_frame [0;0;0;2] ++ [0;0]))
+  = [ODef 0 (Succ [0;0;0;1]); ODef 1 FailCancelled; OLose]
+  /\ tail_events inter s [[0;0;0;1]; [0;0;0;2]] = [EFrame [0;0;0;1]; ECancel 1; EClose; EFrame [0;0;0;2]].
+Proof. vm_compute. split; reflexivity. Qed.
 
 Example bootstrap_nonvacuous :
   snd (brun b_init [BReq [0;3;0;0;0;0;0;1;255;255]; BData [0;0;0;5;0;0]; BData [0;1;66];
